@@ -215,12 +215,26 @@ func (c *ctx) signers(m *specqbft.SignedMessage) []int {
 	return out
 }
 
+// sigOK: the reference library's signature predicate; memoised per (message root, signers, signature) because the
+// projection looks at the justifications of stored round-changes after every call
 func (c *ctx) sigOK(m *specqbft.SignedMessage) bool {
 	if len(m.Signers) == 0 {
 		return false
 	}
-	return m.Signature.VerifyByOperators(m, kit.Domain, spectypes.QBFTSignatureType, c.committee) == nil
+	r, err := m.Message.GetRoot()
+	if err != nil {
+		return false
+	}
+	key := fmt.Sprintf("%x|%v|%x|%d", r, m.Signers, m.Signature, len(c.committee))
+	if v, ok := sigMemo[key]; ok {
+		return v
+	}
+	v := m.Signature.VerifyByOperators(m, kit.Domain, spectypes.QBFTSignatureType, c.committee) == nil
+	sigMemo[key] = v
+	return v
 }
+
+var sigMemo = map[string]bool{}
 
 // a nested prepare (justification element): everything validSignedPrepareForHeightRoundAndRoot checks except the
 // expected round and root, which the specification compares itself
@@ -1209,6 +1223,9 @@ func (rec *recorder) runRandom(seed int64, idx int) {
 			}
 			if rng.Intn(3) == 0 {
 				ids = ids[:len(ids)-1-rng.Intn(2)]
+				if c.certOK && len(ids) < 2 {
+					continue // a one-signer "certificate" is a plain commit (none beside a stored certificate)
+				}
 			}
 			if rng.Intn(3) == 0 {
 				kinds := []string{"subQuorum", "dupSigner", "zeroSigner", "foreignSigner", "badAggregate", "valueNotRoot", "wrongIdentifier", "notCommitType"}
@@ -1344,7 +1361,7 @@ func main() {
 				continue
 			}
 			t := f()
-			if *only != "" && !strings.HasPrefix(*only, t.TestName()) {
+			if *only != "" && *only != t.TestName() && !strings.HasPrefix(*only, t.TestName()+"#") {
 				continue
 			}
 			rec.counts["kit-scenarios"]++
@@ -1370,7 +1387,7 @@ func main() {
 		if i%*of != *shard {
 			continue
 		}
-		if *only != "" && !strings.HasPrefix(*only, fmt.Sprintf("random-%d-%d", *seed, i)) {
+		if nm := fmt.Sprintf("random-%d-%d", *seed, i); *only != "" && *only != nm && !strings.HasPrefix(*only, nm+"#") {
 			continue
 		}
 		rec.runRandom(*seed, i)
